@@ -301,6 +301,29 @@ theorem C13_commit_reestablishes_cache_coherence (H : RootPre → String) (l l1 
     exact hD a m k v hm hk
   exact commit_establishes_cacheDb H (writes ws l) l1 h ((ObjCoh.of_no_objects l hno).writes ws) hW hc
 
+/-- **the latest write is read back through the whole cycle**: a block of storage writes and deletes on a ledger between two blocks
+(no account objects, cache agreeing with the database), flushed, committed, then — the value now living in the account cache and in
+the database — a cache entry evicted, then the ledger closed and opened again on the same database: every storage key of every
+account reads the block's last write to it, or what it read before the block if the block did not write it.  (Dirty set → account
+cache → database → reopen, with a commit and an eviction in between; the same holds after every further block, by
+`C13_commit_reestablishes_cache_coherence`.) -/
+theorem C13_latest_write_survives_flush_commit_evict_reopen (H : RootPre → String) (l l1 l2 : L) (h : Nat) (hno : l.accounts = [])
+    (hD : CacheDb l) (ws : List SWrite) (ev : Addr)
+    (hc : commit (flush H (writes ws l)).1 h (flush H (writes ws l)).2 = some l1)
+    (hr : reopen { l1 with cache := { l1.cache with state := KV.erase l1.cache.state ev } } = some l2) (a : Addr) (k : String) :
+    ((getState l2 a k).2).getD "" =
+      (match ws.reverse.find? (fun (w : SWrite) => decide (w.addr = a ∧ w.key = k)) with
+       | some w => w.val
+       | none => (getState l a k).2).getD "" := by
+  have hC : ObjCoh (writes ws l) := (ObjCoh.of_no_objects l hno).writes ws
+  have hD1 : CacheDb l1 := C13_commit_reestablishes_cache_coherence H l l1 h hno hD ws hc
+  have hacc1 : l1.accounts = [] := (commit_accounts h _ hc).trans rfl
+  -- reopen ← eviction ← commit ← flush ← the block's writes
+  rw [C13_reopen_keeps_every_read { l1 with cache := { l1.cache with state := KV.erase l1.cache.state ev } } l2 hacc1 (hD1.evictAcct ev) hr a k,
+    C13_eviction_keeps_every_read l1 hD1 ev a k]
+  rw [getState_peek, commit_keeps_reads H (writes ws l) l1 h hC hc hacc1 a k, ← getState_peek]
+  exact C13_block_writes_survive_flush H l hno ws a k
+
 /-- an empty ledger meets it -/
 example : CacheDb ({} : L) := by intro a m k v hm _; simp [KV.get] at hm
 
